@@ -20,7 +20,9 @@ def run_impl(programs: Sequence[Dict[str, Any]], hashseed: Optional[str] = "0", 
     env["PYTHONPATH"] = f"{REPO}:{VERIF / 'harness'}"
     if hashseed is not None:
         env["PYTHONHASHSEED"] = hashseed
-    inp = "\n".join(dumps(p) for p in programs) + "\n"
+    # insertion order of dictionaries is preserved on the way to the implementation (top-level
+    # permutations are part of C02/C03); the Lean side canonicalises by sorting
+    inp = "\n".join(json.dumps(p, separators=(",", ":")) for p in programs) + "\n"
     r = subprocess.run([PY, "-B", str(VERIF / "harness" / "impl_runner.py")], input=inp, capture_output=True,
                        text=True, timeout=timeout, env=env, cwd="/")
     lines = r.stdout.splitlines()
@@ -95,7 +97,9 @@ def diff_program(prog: Dict[str, Any], impl: Any, model: Any, facets: Iterable[s
                 out.append({"op": i, "facet": "mutator", "impl": a, "model": b})
             continue
         if isinstance(b, dict) and b.get("r", [None])[0] == "fuel" or a["r"][0] == "fuel":
-            continue  # outside the model (RecursionError / fuel)
+            # outside the model (unbounded template recursion: Python turns the RecursionError into an
+            # EvaluationError and carries on; the model's fuel ends the run) — nothing after it is comparable
+            break
         va, vb = facet_views(op, a, "impl"), facet_views(op, b, "model")
         for f in va:
             if f in facets and va[f] != vb.get(f):
